@@ -63,6 +63,14 @@ claimed = {
    text="Decides from source, for every schedule at once: for each goroutine started in package fbb, every variable shared with the spawner is examined field-granularly - accesses inside the goroutine (nested closures included) against accesses the spawner and its other closures can make after the go statement; a pair on the same storage with a write is reported unless the storage is a channel, sync/atomic value, Ticker/Timer; method calls count as writes unless read-only by table (and a read-only call still conflicts with a write on the other side) or, for module methods, by mod-ref. In each status reporter the Done report is issued only on the closed-channel path, which returns without another report; all other reports leave Done unset; the spawner closes that channel exactly once by a defer registered right after the go statement. Does not decide the numeric range of the reported counts, nor races inside the application's StatusUpdater/transport.",
    technique="goroutine-sharing analysis on SSA (closure bindings, reachability after the go statement, field-granular read/write sets with a method effect table); dominance analysis of the final report",
    ref="DESIGN.md section 4, C17"),
+ "C18": dict(
+   text="Decides from source: every bufio.Scanner over caller-supplied text in fbb has its token limit raised before the first Scan to at least len(input)+1 (proved by the fact engine) and its Err() consulted so that every normal return lies on the nil edge; the wrap position is computed with unicode/utf8 (or on single-byte output), each chunk is proven <= 998 bytes and followed by CRLF in the same step; the Body header is the decimal length of the very value stored as body; the translation charset equals the announced charset. Does not decide equality of input and stored text for all strings, nor the translator's behaviour for unrepresentable characters.",
+   technique="API-discipline rules on SSA (scanner limit/Err typestate), length proofs by the difference-bound fact engine with callee summaries, data-dependence checks",
+   ref="DESIGN.md section 4, C18"),
+ "C09": dict(
+   text="Decides from source: no writer call inside a range over a map and every slice filled from a map is sorted before being iterated, in everything reachable from Message.Write (canonical header order); terminators written equal the one the reader accepts, header line shapes, Mid first and only once; Body/File headers carry the lengths of the stored body / appended attachment data; Q-encoding labels equal the transcoding charset at every site; SetDate writes UTC in the first layout ParseDate tries and Write refuses unparsable dates before writing. Does not decide round-trip equality over all messages (special characters, trimming, address normalisation).",
+   technique="syntax/SSA discipline rules over the call-graph closure of the serialiser; writer/reader sibling agreement on constants; data-dependence of size headers",
+   ref="DESIGN.md section 4, C09"),
 }
 
 not_applicable = {
